@@ -127,6 +127,10 @@ def run_check(pid, tier, seed, only=None, keep=False):
         return 2
     kani_sel = [h for h in reg.get("kani", []) if pid in h["props"] and tier_ok(h.get("tier", "quick"), tier)]
     verus_sel = [v for v in reg.get("verus", []) if pid in v["props"] and tier_ok(v.get("tier", "quick"), tier)]
+    skip = [x for x in os.environ.get("VERIF_DEV_SKIP", "").split(",") if x]  # development aid only (seed evaluations); never set by MANIFEST commands
+    if skip:
+        log("VERIF_DEV_SKIP: leaving out %s - this run does NOT decide the property" % skip)
+        kani_sel = [h for h in kani_sel if h["id"] not in skip]
     if only:
         kani_sel = [h for h in kani_sel if h["id"] in only]
         verus_sel = [v for v in verus_sel if v["id"] in only]
